@@ -1,6 +1,7 @@
 package checks
 
 import (
+	"strings"
 	"os"
 	"encoding/json"
 	"fmt"
@@ -21,7 +22,18 @@ type c01Case struct {
 	Cfg  sut.Config `json:"cfg"`
 	Gap  bool       `json:"gap_topology"`
 	Spec PipeSpec   `json:"spec"`
+	// Hung: a request timeout is configured and some backends do not answer (C16's pipelines, all in one write):
+	// still one reply per request, in order - a timeout error where the backend stalled
+	Hung *c16Case `json:"stalled_backends,omitempty"`
 }
+
+// One extra fixture per shard (three proxies stay alive per shard): either the small send buffer of the backlog
+// family or the request timeout of the stall family - never both in one proxy, a big reply may legitimately
+// take longer than a short timeout on a busy machine.
+var (
+	c01BacklogCfg = sut.Config{ServerConns: 1, SndBuf: 4096}
+	c01StallCfg   = sut.Config{ServerConns: 1, TimeoutMs: 300}
+)
 
 var c01BadSlots = []int{16000, 16100, 16383}
 
@@ -78,10 +90,17 @@ func c01Gen(t *rapid.T) c01Case {
 		c.Spec.HoldMs = 250
 		return c
 	}
-	if rapid.IntRange(0, 15).Draw(t, "backlog") == 0 {
+	if rapid.IntRange(0, 11).Draw(t, "backlog") == 0 {
 		// a client that lets megabytes of replies pile up, reads part of them, and then sends requests the proxy
 		// answers itself (or further GETs): the new reply must come after everything still buffered
-		c.Cfg, c.Gap = sut.Config{ServerConns: 1, SndBuf: 4096}, false
+		if shardPick([]string{"backlog", "stalls"}, 1)[0] == "stalls" {
+			h := c16Gen(t)
+			h.TimeoutMs, h.Kill = c01StallCfg.TimeoutMs, false
+			c.Hung = &h
+			c.Cfg, c.Gap = c01StallCfg, false
+			return c
+		}
+		c.Cfg, c.Gap = c01BacklogCfg, false
 		cs, plans := genPhased(t, true)
 		c.Spec.Clients = []ClientSpec{cs}
 		c.Spec.Plans = plans
@@ -103,6 +122,9 @@ func c01Gen(t *rapid.T) c01Case {
 }
 
 func c01Classify(c *c01Case) (bool, []string) {
+	if c.Hung != nil {
+		return true, []string{"pipeline-with-stalled-backends-and-a-request-timeout"}
+	}
 	bad := map[int]bool{}
 	if c.Gap {
 		for s := 16000; s < 16384; s++ {
@@ -157,7 +179,12 @@ func c01Exec(c *c01Case) []Discrepancy {
 	}
 	f := getFixtureV("C01", c.Cfg, 3, 0, variant)
 	var ds []Discrepancy
-	if len(c.Spec.Clients) == 1 && len(c.Spec.Clients[0].Phases) > 0 {
+	if c.Hung != nil {
+		ds = c16Run(f, c.Hung)
+		for i := range ds {
+			ds[i].Sig = "C01/with-timeouts-" + strings.TrimPrefix(ds[i].Sig, "C16/")
+		}
+	} else if len(c.Spec.Clients) == 1 && len(c.Spec.Clients[0].Phases) > 0 {
 		rc := &refCtx{Password: c.Cfg.Password, MaxLen: c.Cfg.MaxLen, Owners: f.Owners}
 		exp := expectedFor(&c.Spec.Clients[0], indexPlans(&c.Spec), rc)
 		res := runPhased(f, &c.Spec, len(exp))
